@@ -714,11 +714,20 @@ pub fn run_stress(focus: &'static str, seed: u64, index: u64, args: &Args) -> Ca
                             2 => Some(WriteOp::PutW { key: other, value, weight: rng.range(25, 60) as i64 }),
                             _ => None,
                         };
-                        if rng.chance(2, 3) {
+                        let how = rng.below(3);
+                        if how == 0 {
                             let _ = cache.map_get(&key, |stored| {
                                 match &back { Some(op) => { let _ = issue(&cache, op); } None => { let _ = cache.get(&other); let _ = cache.total_weight_used(); } }
                                 stored
                             });
+                        } else if how == 1 {
+                            // the mapping function of the mapping iterator
+                            let all: Vec<u64> = (1..=keys).collect();
+                            let refs: Vec<&u64> = all.iter().collect();
+                            let _ = cache.multi_get_map_iterator(refs, |stored| {
+                                match &back { Some(op) => { let _ = issue(&cache, op); } None => { let _ = cache.get(&other); } }
+                                stored
+                            }).count();
                         } else {
                             let all: Vec<u64> = (1..=keys).collect();
                             let refs: Vec<&u64> = all.iter().collect();
@@ -980,6 +989,12 @@ pub fn run_release(focus: &'static str, seed: u64, index: u64) -> CaseOut {
                 if let Issued::Ack(ack, _) = &second {
                     let waker = rt::CountingWaker::new();
                     if let Poll::Ready(status) = rt::poll_once(ack.handle(), &waker) { early = Some(status); }
+                }
+                if let Some(CommandStatus::Rejected(RejectionReason::KeyDoesNotExist)) = early {
+                    if sut.cache.verif_charged_weight(id).is_some() {
+                        fail(&mut findings, &["C04", "C07"], "C04/delete-acknowledged-as-absent-while-the-key-is-still-held".into(),
+                             format!("the second of two back-to-back deletes of key {} was acknowledged 'key does not exist' while the worker had executed neither: id {} is still stored and charged {}, and a put of it would be refused as existing", key, id, charged), case.clone());
+                    }
                 }
                 if let Some(CommandStatus::Accepted) = early {
                     if sut.cache.verif_charged_weight(id).is_some() {
